@@ -351,7 +351,7 @@ PROPS["C03"] = {
     "rule": "one case = one (kind, options, explicit/zero hyper-parameters, update history); replayed with 6 gradient classes; all distinct; non-trivial = all",
     "mc": [{"module": "MC_C03",
             "consts": {"quick": {"MaxSteps": 3, "MaxRounds": 3, "Slots": "{1, 2, 3}", "LongRuns": "{120, 2600}"},
-                       "thorough": {"MaxSteps": 4, "MaxRounds": 3, "Slots": "{1, 2, 3}", "LongRuns": "{120, 2600, 10000}"}},
+                       "thorough": {"MaxSteps": 4, "MaxRounds": 3, "Slots": "{1, 2, 3, 4}", "LongRuns": "{120, 2600, 10000}"}},
             "workers": 8, "timeout": {"quick": 600, "thorough": 7200}}],
     "assumptions": TERM_ASSUME,
 }
